@@ -2,17 +2,17 @@
 
 PROP = dict(
     level="proof",
-    lean_modules=['PopsModel.Props.C11'],
-    theorems=['Pops.C11_who_dies', 'Pops.C11_rate_zero', 'Pops.C11_eventual_death'],
-    commands=['hp.mortality'],
+    lean_modules=['PopsModel.Props.C11', 'PopsModel.Props.C11Hosts'],
+    theorems=['Pops.C11_who_dies', 'Pops.C11_rate_zero', 'Pops.C11_eventual_death', 'Pops.C11_per_host'],
+    commands=['hp.mortality', 'mh.mortality'],
     runs={
-        "quick": [('h_host', 'pool', 0, 1500), ('h_model', 'model', 0, 400)],
-        "thorough": [('h_host', 'pool', 0, 150000), ('h_model', 'model', 0, 20000)],
+        "quick": [('h_host', 'pool', 0, 1500), ('h_model', 'model', 0, 400), ('h_multi', 'pool', 0, 500)],
+        "thorough": [('h_host', 'pool', 0, 150000), ('h_model', 'model', 0, 20000), ('h_multi', 'pool', 0, 40000)],
     },
     exhaustive={"quick": False, "thorough": False},
     rule="case (pool) = one random landscape (7 shapes incl. 1x1, 1xN, Nx1, rows != cols; SI/SEI, latency 0..3, 1..4 mortality cohorts, 20% empty cells) with 5-14 random operations (add/land a disperser with scripted uniform, deterministic generation, pests from/to, host move incl. same-cell, removal/pesticide treatment in both modes with coefficients k/64, pesticide end, survival rate, lethal temperature, mortality, latency step); case (model) = one random Model configuration (feature subsets, calendar with day/week/month steps, both entry points, injected kernel throwing dispersers inside / at the source / just outside / far outside) run for up to 40 steps with the state printed after every action; non-trivial = at least 3 different operation kinds on a landscape with a suitable cell (pool) / at least 3 steps (model); distinct = blake2b of the case's protocol lines",
     assumptions=[],
-    explanation="Theorems: the mortality action kills cohort 0 completely, floor(rate x size) of cohorts up to |mort|-lag-1 and nothing within the lag, books the dead in died / infected / total hosts and ages the cohorts; rate 0 kills nobody; with a positive rate everything infected before a run of |mort| mortality steps is dead afterwards whatever new infection arrives. The driver evaluates mortalitySpec on the implementation's Mortality action (direct parameters in the pool harness, pest-host-table parameters inside Model::run_step) and compares exactly.",
+    explanation="Per-host parameters (C11_per_host): with the pest-host table built from the Config rows, the pool-level mortality call leaves host h exactly as its own row's rate and truncated lag prescribe; h_multi builds the table through Config::read_pest_host_table / create_pest_host_table_from_parameters and PestHostTable(config, environment) and the driver evaluates that per host (PROPFAIL C11 per_host_parameters). Theorems: the mortality action kills cohort 0 completely, floor(rate x size) of cohorts up to |mort|-lag-1 and nothing within the lag, books the dead in died / infected / total hosts and ages the cohorts; rate 0 kills nobody; with a positive rate everything infected before a run of |mort| mortality steps is dead afterwards whatever new infection arrives. The driver evaluates mortalitySpec on the implementation's Mortality action (direct parameters in the pool harness, pest-host-table parameters inside Model::run_step) and compares exactly.",
 )
 
 META = dict(engine="h_host", design_ref="DESIGN.md section 3, C11",
